@@ -286,57 +286,8 @@ Proof.
   - rewrite !sum_sizes_vals. apply Permutation_list_sum. now apply Permutation_map.
 Qed.
 
-Lemma f_rhs_vars : forall st h rs ys, rhs_vars rs = Some ys ->
-  f_rhs st h rs = Safe (h, map (f_lookup st) ys).
-Proof.
-  intros st h. induction rs as [|[y|items] r IH]; intros ys H; simpl in *; try discriminate.
-  - now injection H as <-.
-  - destruct (rhs_vars r) as [ys'|]; try discriminate. injection H as <-.
-    rewrite (IH ys' eq_refl). reflexivity.
-Qed.
-
 Lemma lookup_getd : forall st y, f_loc st = [] -> f_lookup st y = getd null_list (f_glob st) y.
 Proof. intros st y Hl. unfold f_lookup, getd. rewrite Hl. reflexivity. Qed.
-
-Lemma f_tuple_store_glob : forall in_loop xs ts h g,
-  (forall x, In x xs -> existsb (Z.eqb x) (map fst g) = true) ->
-  f_tuple_store in_loop (mkf h g []) xs ts = mkf h (tstore g xs ts) [].
-Proof.
-  intros in_loop. induction xs as [|x xr IH]; intros [|t tr] h g Hd; simpl; auto.
-  assert (Hx : has x g = true).
-  { unfold has. destruct (proj1 (assoc_names _ x g) (Hd x (or_introl eq_refl))) as (a & ->). reflexivity. }
-  unfold f_declared. simpl. rewrite Hx. unfold f_store. simpl.
-  apply IH. intros w Hw. rewrite set_assoc_names. apply Hd. now right.
-Qed.
-
-Lemma tuple_exec : forall in_loop st xs rs,
-  Inv st -> tuple_ok (map fst (f_glob st)) xs rs = true ->
-  exists ys, rhs_vars rs = Some ys /\
-    f_exec in_loop st (LTuple xs rs) =
-      Safe (mkf (f_heap st) (tstore (f_glob st) xs (map (getd null_list (f_glob st)) ys)) [], []) /\
-    Permutation (map snd (tstore (f_glob st) xs (map (getd null_list (f_glob st)) ys))) (map snd (f_glob st)) /\
-    length xs = length ys /\ NoDup xs /\ NoDup ys /\ incl ys xs /\ incl xs (map fst (f_glob st)).
-Proof.
-  intros in_loop st xs rs HI U. pose proof HI as (Hloc & (Hn & _) & _).
-  destruct (tuple_ok_spec _ _ _ U) as (ys & R & L & NDx & NDy & I1 & I2).
-  exists ys. split; auto. split; [|split; [|repeat split; auto]].
-  - unfold f_exec. rewrite (f_rhs_vars st (f_heap st) rs ys R). cbn [rbind].
-    rewrite Hloc. rewrite f_tuple_store_glob.
-    + do 3 f_equal. f_equal. apply map_ext. intros y. now apply lookup_getd.
-    + intros x Hx. apply existsb_eqb_In. now apply I2.
-  - apply tstore_perm; auto.
-Qed.
-
-Lemma tuple_inv : forall in_loop st xs rs,
-  Inv st -> tuple_ok (map fst (f_glob st)) xs rs = true -> post_ok st (f_exec in_loop st (LTuple xs rs)).
-Proof.
-  intros in_loop st xs rs HI U. destruct (tuple_exec in_loop st xs rs HI U) as (ys & _ & E & P & _).
-  rewrite E. pose proof HI as (Hloc & Hw & Hb & Hc). simpl.
-  assert (N : map fst (tstore (f_glob st) xs (map (getd null_list (f_glob st)) ys)) = map fst (f_glob st))
-    by apply tstore_names.
-  destruct (perm_wf_env (f_heap st) _ _ N P Hw) as (Hw' & Lo & Ls).
-  split; auto. unfold Inv. simpl. split; [reflexivity|]. split; [exact Hw'|]. split; congruence.
-Qed.
 
 Lemma exec_inv : forall in_loop st s,
   Inv st -> use_ok (map fst (f_glob st)) s = true -> post_ok st (f_exec in_loop st s).
@@ -346,24 +297,24 @@ Proof.
   - (* LAssignVar x x *)
     apply andb_true_iff in U. destruct U as [E U]. apply Z.eqb_eq in E. subst y.
     destruct (Inv_var st x HI U) as (l & cs & Hx & Hlk & Hr).
-    unfold f_exec, f_declared. rewrite Hloc. unfold has at 1. simpl.
+    unfold f_exec, desugar, f_exec1, f_declared. rewrite Hloc. unfold has at 1. simpl.
     unfold has. rewrite Hx. rewrite Hlk, Z.eqb_refl. simpl.
     rewrite store_same by auto. split; auto.
   - (* LAppend *)
     destruct (Inv_var st x HI U) as (l & cs & Hx & Hlk & Hr).
     destruct (append_ok _ l cs v Hr) as (h' & l' & E & UO).
-    unfold f_exec. rewrite Hlk, E. simpl. split; [eapply store_inv; eauto | now apply store_names].
+    unfold f_exec, desugar, f_exec1. rewrite Hlk, E. simpl. split; [eapply store_inv; eauto | now apply store_names].
   - (* LRemove *)
     destruct (Inv_var st x HI U) as (l & cs & Hx & Hlk & Hr).
     destruct (remove_ok _ l cs v Hr) as (h' & l' & E & UO).
-    unfold f_exec. rewrite Hlk, E. simpl. split; [eapply store_inv; eauto | now apply store_names].
+    unfold f_exec, desugar, f_exec1. rewrite Hlk, E. simpl. split; [eapply store_inv; eauto | now apply store_names].
   - (* LGet *)
     destruct (Inv_var st x HI U) as (l & cs & Hx & Hlk & Hr).
-    unfold f_exec. rewrite Hlk, (get_spec _ l cs i Hr).
+    unfold f_exec, desugar, f_exec1. rewrite Hlk, (get_spec _ l cs i Hr).
     destruct (py_index (length cs) i); simpl; auto.
   - (* LSet *)
     destruct (Inv_var st x HI U) as (l & cs & Hx & Hlk & Hr).
-    unfold f_exec. rewrite Hlk.
+    unfold f_exec, desugar, f_exec1. rewrite Hlk.
     destruct (py_index (length cs) i) as [k|] eqn:P.
     + destruct (set_ok _ l cs i v k Hr P) as (h' & E & UO). rewrite E. simpl.
       pose proof (store_inv st x l h' l _ HI Hx UO) as HI'.
@@ -372,14 +323,14 @@ Proof.
     + rewrite (set_spec _ l cs i v Hr), P. simpl. auto.
   - (* LCallGet *)
     destruct (Inv_var st x HI U) as (l & cs & Hx & Hlk & Hr).
-    unfold f_exec. rewrite Hlk, (get_spec _ l cs i Hr).
+    unfold f_exec, desugar, f_exec1. rewrite Hlk, (get_spec _ l cs i Hr).
     destruct (py_index (length cs) i); simpl; auto.
   - (* LAppendRef *)
     apply andb_true_iff in U. destruct U as [Ux Uy].
     destruct (Inv_var st x HI Ux) as (l & cs & Hx & Hlk & Hr).
     destruct (Inv_var st y HI Uy) as (s & cs2 & Hy & Hlky & Hrs).
     pose proof (append_ref_ok _ l cs s cs2 i Hr Hrs) as A.
-    unfold f_exec. rewrite Hlk, Hlky.
+    unfold f_exec, desugar, f_exec1. rewrite Hlk, Hlky.
     destruct (py_index (length cs2) i) as [k|].
     + destruct A as (h' & l' & E & UO). rewrite E. simpl. split; [eapply store_inv; eauto | now apply store_names].
     + rewrite A. simpl. auto.
@@ -387,11 +338,9 @@ Proof.
     apply andb_true_iff in U. destruct U as [Ux Uy].
     destruct (Inv_var st x HI Ux) as (l & cs & Hx & Hlk & Hr).
     destruct (Inv_var st y HI Uy) as (s & cs2 & Hy & Hlky & Hrs).
-    unfold f_exec. rewrite Hlk, Hlky.
+    unfold f_exec, desugar, f_exec1. rewrite Hlk, Hlky.
     destruct (remove_ref_ok _ l cs s cs2 i Hr Hrs) as [(h' & l' & cs' & E & UO & _)|(E & _)]; rewrite E; simpl; auto.
     split; [eapply store_inv; eauto | now apply store_names].
-  - (* LTuple *)
-    now apply tuple_inv.
 Qed.
 
 Lemma block_inv : forall in_loop ss st,
@@ -459,10 +408,10 @@ Proof.
              [intros st1 o1 _ HI1 H1; simpl; now apply K | intros k _ ->; simpl; auto] end).
     + (* LDeclLit *)
       destruct (make_ok (f_heap st) items) as (h' & l' & E & F).
-      unfold f_exec. rewrite E. simpl. eapply G; eauto.
+      unfold f_exec, desugar, f_exec1. rewrite E. simpl. eapply G; eauto.
     + (* LDeclComp *)
       destruct (comp_ok (f_heap st) c) as (h' & l' & E & F).
-      unfold f_exec. rewrite E. simpl. eapply G; eauto.
+      unfold f_exec, desugar, f_exec1. rewrite E. simpl. eapply G; eauto.
 Qed.
 
 Lemma Inv_init : Inv f_init.
@@ -600,74 +549,37 @@ Proof.
   - now rewrite tsub_notin.
 Qed.
 
-Lemma tuple_sim : forall in_loop st pst xs rs pst' out,
-  Inv st -> Sim pst st -> tuple_ok (map fst (f_glob st)) xs rs = true ->
-  p_exec in_loop pst (LTuple xs rs) = POk (pst', out) ->
-  exists st', f_exec in_loop st (LTuple xs rs) = Safe (st', out) /\ Sim pst' st'.
-Proof.
-  intros in_loop st pst xs rs pst' out HI HS U P.
-  destruct (tuple_exec in_loop st xs rs HI U) as (ys & R & E & _ & L & NDx & NDy & I1 & I2).
-  pose proof HI as (Hloc & (Hn & Hown & Hall) & _). pose proof HS as (Pl & Pn & Pnm & Pb & Hv).
-  assert (Pnd : NoDup (map fst (p_glob pst))) by now rewrite Pnm.
-  assert (I2p : incl xs (map fst (p_glob pst))) by now rewrite Pnm.
-  cbn [p_exec] in P.
-  rewrite (p_rhs_vars pst (p_objs pst) rs ys Pl R) in P by (intros y Hy; apply I2p, I1, Hy).
-  cbn [pbind] in P. rewrite map_length, <- L, Nat.eqb_refl in P.
-  rewrite Pl in P. rewrite p_tuple_bind_glob in P by (intros x Hx; apply existsb_eqb_In; now apply I2p).
-  injection P as <- <-. rewrite E. eexists. split; [reflexivity|].
-  set (pg := p_glob pst) in *. set (g := f_glob st) in *.
-  assert (PP : Permutation (map snd (tstore pg xs (map (getd 0 pg) ys))) (map snd pg))
-    by (apply tstore_perm; auto).
-  unfold Sim. simpl. split; [reflexivity|]. split; [|split; [|split]].
-  - rewrite refs_vals. eapply Permutation_NoDup; [apply Permutation_sym; exact PP|]. now rewrite <- refs_vals.
-  - now rewrite !tstore_names.
-  - intros o Ho. apply Pb. rewrite refs_vals in *. eapply Permutation_in; eauto.
-  - intros x o Hx.
-    assert (Hin : In x (map fst pg)).
-    { apply assoc_names_in in Hx. now rewrite tstore_names in Hx. }
-    rewrite tstore_perm_assoc in Hx by auto. injection Hx as Hx.
-    assert (Hs : In (tsub xs ys x) (map fst pg)) by (apply tsub_in_names; auto).
-    assert (Ha : assoc (tsub xs ys x) pg = Some o).
-    { unfold getd in Hx. destruct (assoc (tsub xs ys x) pg) eqn:Ea; [now subst|].
-      exfalso. now apply (assoc_in_names nat pg (tsub xs ys x)). }
-    destruct (Hv _ _ Ha) as (Ho & l & Fl & Rl). split; auto.
-    exists l. split; auto.
-    rewrite tstore_perm_assoc; auto.
-    + unfold getd. fold g. now rewrite Fl.
-    + unfold g, pg in *. now rewrite <- Pnm.
-Qed.
-
 Lemma exec_sim : forall in_loop st pst s pst' out,
   Inv st -> Sim pst st -> use_ok (map fst (f_glob st)) s = true ->
   p_exec in_loop pst s = POk (pst', out) ->
   exists st', f_exec in_loop st s = Safe (st', out) /\ Sim pst' st'.
 Proof.
   intros in_loop st pst s pst' out HI HS U P. pose proof HI as (Hloc & _). pose proof HS as (Pl & _).
-  destruct s; cbn [use_ok] in U; try discriminate; [cbn [p_exec] in P ..| |].
+  destruct s; cbn [use_ok] in U; try discriminate; [cbn [p_exec] in P ..|].
   - (* LAssignVar x x *)
     apply andb_true_iff in U. destruct U as [E U]. apply Z.eqb_eq in E. subst y.
     destruct (p_ref pst x) as [o|] eqn:R; simpl in P; try discriminate.
     destruct (sim_var pst st x o HI HS R) as (Px & Ho & l & Fx & Hlk & Hr).
     unfold p_bind in P. rewrite Pl in P. unfold has in P. simpl in P. rewrite Px in P.
     rewrite set_assoc_same in P by auto. injection P as <- <-.
-    unfold f_exec, f_declared. rewrite Hloc. unfold has. simpl. rewrite Fx, Hlk, Z.eqb_refl. simpl.
+    unfold f_exec, desugar, f_exec1, f_declared. rewrite Hloc. unfold has. simpl. rewrite Fx, Hlk, Z.eqb_refl. simpl.
     rewrite store_same by auto. exists st. split; auto.
     destruct pst as [ob gl lo]. simpl in *. now subst lo.
   - (* LAppend *)
     destruct (p_ref pst x) as [o|] eqn:R; simpl in P; try discriminate. injection P as <- <-.
     destruct (sim_var pst st x o HI HS R) as (Px & Ho & l & Fx & Hlk & Hr).
     destruct (append_ok _ l _ v Hr) as (h' & l' & E & UO).
-    unfold f_exec. rewrite Hlk, E. simpl. eexists. split; [reflexivity|]. eapply sim_store; eauto.
+    unfold f_exec, desugar, f_exec1. rewrite Hlk, E. simpl. eexists. split; [reflexivity|]. eapply sim_store; eauto.
   - (* LRemove *)
     destruct (p_ref pst x) as [o|] eqn:R; simpl in P; try discriminate.
     destruct (sim_var pst st x o HI HS R) as (Px & Ho & l & Fx & Hlk & Hr).
     destruct (remove_ok _ l _ v Hr) as (h' & l' & E & UO).
     destruct (remove_first v (p_obj pst o)) as [cs'|] eqn:RF; try discriminate. injection P as <- <-.
-    unfold f_exec. rewrite Hlk, E. simpl. eexists. split; [reflexivity|]. eapply sim_store; eauto.
+    unfold f_exec, desugar, f_exec1. rewrite Hlk, E. simpl. eexists. split; [reflexivity|]. eapply sim_store; eauto.
   - (* LGet *)
     destruct (p_ref pst x) as [o|] eqn:R; simpl in P; try discriminate.
     destruct (sim_var pst st x o HI HS R) as (Px & Ho & l & Fx & Hlk & Hr).
-    unfold f_exec. rewrite Hlk, (get_spec _ l _ i Hr).
+    unfold f_exec, desugar, f_exec1. rewrite Hlk, (get_spec _ l _ i Hr).
     destruct (py_index (length (p_obj pst o)) i); try discriminate. injection P as <- <-.
     simpl. eauto.
   - (* LSet *)
@@ -675,14 +587,14 @@ Proof.
     destruct (sim_var pst st x o HI HS R) as (Px & Ho & l & Fx & Hlk & Hr).
     destruct (py_index (length (p_obj pst o)) i) as [k|] eqn:PI; try discriminate. injection P as <- <-.
     destruct (set_ok _ l _ i v k Hr PI) as (h' & E & UO).
-    unfold f_exec. rewrite Hlk, E. simpl. eexists. split; [reflexivity|].
+    unfold f_exec, desugar, f_exec1. rewrite Hlk, E. simpl. eexists. split; [reflexivity|].
     pose proof (sim_store pst st x o l h' l _ HI HS Px Fx UO) as S'.
     unfold f_store in S'. rewrite Hloc in S'. simpl in S'. rewrite set_assoc_same in S' by auto.
     rewrite Hloc. exact S'.
   - (* LCallGet *)
     destruct (p_ref pst x) as [o|] eqn:R; simpl in P; try discriminate.
     destruct (sim_var pst st x o HI HS R) as (Px & Ho & l & Fx & Hlk & Hr).
-    unfold f_exec. rewrite Hlk, (get_spec _ l _ i Hr).
+    unfold f_exec, desugar, f_exec1. rewrite Hlk, (get_spec _ l _ i Hr).
     destruct (py_index (length (p_obj pst o)) i); try discriminate. injection P as <- <-.
     simpl. eauto.
   - (* LAppendRef *)
@@ -692,7 +604,7 @@ Proof.
     destruct (sim_var pst st y oy HI HS Ry) as (Py & Hoy & s & Fy & Hlky & Hrs).
     destruct (py_index (length (p_obj pst oy)) i) as [k|] eqn:PI; try discriminate. injection P as <- <-.
     pose proof (append_ref_ok _ l _ s _ i Hr Hrs) as A. rewrite PI in A. destruct A as (h' & l' & E & UO).
-    unfold f_exec. rewrite Hlk, Hlky, E. simpl. eexists. split; [reflexivity|]. eapply sim_store; eauto.
+    unfold f_exec, desugar, f_exec1. rewrite Hlk, Hlky, E. simpl. eexists. split; [reflexivity|]. eapply sim_store; eauto.
   - (* LRemoveRef *)
     cbn [p_exec] in P.
     destruct (p_ref pst x) as [o|] eqn:R; simpl in P; try discriminate.
@@ -704,9 +616,7 @@ Proof.
     injection P as <- <-.
     destruct (remove_ref_ok _ l _ s _ i Hr Hrs) as [(h' & l' & cs'' & E & UO & Hcs)|(E & Hn)]; [|congruence].
     specialize (Hcs k PI). rewrite RF in Hcs. subst cs''.
-    unfold f_exec. rewrite Hlk, Hlky, E. simpl. eexists. split; [reflexivity|]. eapply sim_store; eauto.
-  - (* LTuple *)
-    eapply tuple_sim; eauto.
+    unfold f_exec, desugar, f_exec1. rewrite Hlk, Hlky, E. simpl. eexists. split; [reflexivity|]. eapply sim_store; eauto.
 Qed.
 
 Lemma refs_app : forall a b, refs (a ++ b) = refs a ++ refs b.
@@ -806,12 +716,12 @@ Proof.
     + (* LDeclLit *)
       cbn [p_exec] in E1. injection E1 as E1a E1b.
       destruct (make_ok (f_heap st) items) as (h' & l' & E & F).
-      unfold f_exec. rewrite E. cbn [rbind]. eapply G; eauto.
+      unfold f_exec, desugar, f_exec1. rewrite E. cbn [rbind]. eapply G; eauto.
     + (* LDeclComp *)
       cbn [p_exec] in E1. destruct (c_step c =? 0)%Z eqn:Ez; try discriminate. injection E1 as E1a E1b.
       destruct (comp_ok (f_heap st) c) as (h' & l' & E & F).
       unfold comp_vals in F. rewrite Ez in F.
-      unfold f_exec. rewrite E. cbn [rbind]. eapply G; eauto.
+      unfold f_exec, desugar, f_exec1. rewrite E. cbn [rbind]. eapply G; eauto.
 Qed.
 
 Lemma pass_sim : forall body st pst pst' o,
@@ -1064,7 +974,7 @@ Proof.
     apply (footprint_distinct lval optl (f_glob st) x y lx ly b Hown Hx Hy Hne); unfold optl;
       [rewrite Dx | rewrite <- Heq]; simpl; auto. }
   destruct (assign_upd_ok _ lx ly cx cy Hrx Hry D) as (h' & l' & E & UO).
-  unfold f_exec, f_declared. rewrite Hloc. unfold has at 1. simpl. unfold has. rewrite Hx.
+  unfold f_exec, desugar, f_exec1, f_declared. rewrite Hloc. unfold has at 1. simpl. unfold has. rewrite Hx.
   rewrite Hlkx, Hlky, Exy, E. simpl. split; [eapply store_inv; eauto | now apply store_names].
 Qed.
 
@@ -1115,5 +1025,274 @@ Proof.
   destruct (f_block false f_init setup) as [[st0 o0]|k]; simpl in *; auto.
   destruct H as [HI0 N0]. rewrite <- N0 in G.
   pose proof (passes_seq_inv2 bodies st0 HI0 G) as H.
+  destruct (run_passes_seq bodies st0); auto. now apply Inv_wf_tight.
+Qed.
+
+(* ================================================================== value semantics: EVERY statement keeps the invariant *)
+Lemma remove_split : forall (A : Type) x (e : env A) a, assoc x e = Some a ->
+  exists e1 e2, e = e1 ++ (x, a) :: e2 /\ env_remove x e = e1 ++ e2 /\
+                remove_name x (map fst e) = map fst (e1 ++ e2).
+Proof.
+  induction e as [|[y b] r IH]; intros a H; simpl in *; try discriminate.
+  destruct (Z.eqb x y) eqn:E.
+  - apply Z.eqb_eq in E. subst y. inversion H; subst. exists [], r. simpl. auto.
+  - destruct (IH a H) as (e1 & e2 & -> & R & N). exists ((y, b) :: e1), e2. simpl. rewrite R, N. auto.
+Qed.
+
+(* a variable goes out of scope: its destructor releases its buffer, every other list is untouched *)
+Lemma drop_inv : forall st x l,
+  Inv st -> assoc x (f_glob st) = Some l ->
+  Inv (mkf (kill (f_heap st) (data l)) (env_remove x (f_glob st)) []).
+Proof.
+  intros st x l (Hloc & (Hnames & Hown & Hall) & Hb & Hc) Hx.
+  destruct (remove_split _ x _ l Hx) as (e1 & e2 & He & Hrm & _).
+  unfold Inv, wf_env. simpl. rewrite Hrm. rewrite He in *. clear He Hrm Hx.
+  rewrite owned_app in *. simpl in *. fold (owned e2) in *.
+  rewrite sum_sizes_app in *. simpl in *.
+  rewrite !app_length in *.
+  apply Forall_app in Hall. destruct Hall as (Hall1 & Hall2).
+  inversion Hall2 as [|? ? Hl Hall2']; subst. simpl in Hl. destruct Hl as (cs & Hr).
+  apply NoDup_app_iff in Hown. destruct Hown as (N1 & N2 & D12).
+  apply NoDup_app_iff in N2. destruct N2 as (Nl & N3 & D23).
+  destruct (kill_counts _ l cs Hr) as [KB KC].
+  repeat split; auto.
+  - rewrite map_app in *. simpl in *. eapply NoDup_remove_1; eauto.
+  - apply NoDup_app_iff. repeat split; auto. intros b Hb1 Hb2. apply (D12 b); auto. apply in_or_app; auto.
+  - apply Forall_app. split.
+    + rewrite Forall_forall in *. intros [y m] Hy. specialize (Hall1 _ Hy). simpl in *.
+      eapply wf_lval_frame; eauto. intros b Eb. apply nth_error_kill_other. intro El.
+      apply (D12 b).
+      * apply in_flat_map. exists (y, m). split; auto. unfold optl. simpl. rewrite Eb. simpl; auto.
+      * apply in_or_app. left. unfold optl. rewrite El. simpl; auto.
+    + rewrite Forall_forall in *. intros [y m] Hy. specialize (Hall2' _ Hy). simpl in *.
+      eapply wf_lval_frame; eauto. intros b Eb. apply nth_error_kill_other. intro El.
+      apply (D23 b).
+      * unfold optl. rewrite El. simpl; auto.
+      * apply in_flat_map. exists (y, m). split; auto. unfold optl. simpl. rewrite Eb. simpl; auto.
+  - lia.
+  - lia.
+Qed.
+
+Lemma assign_upd_ok_any : forall h d s cd cs,
+  rep h d cd -> rep h s cs ->
+  exists h' l', list_assign h d s false = Safe (h', l') /\ upd_ok h d h' l' cs.
+Proof.
+  intros h d s cd cs Hd Hs. rewrite (assign_spec_any h d s cd cs Hd Hs).
+  destruct cs as [|c r]; do 2 eexists; (split; [reflexivity|]).
+  - apply (clear_ok h d cd Hd).
+  - apply (replace_ok h d cd (c :: r) Hd). discriminate.
+Qed.
+
+(* x = <temporary>: the move assignment releases x's buffer and adopts the temporary's *)
+Lemma move_assign_ok : forall h l cs h1 tmp cs',
+  rep h l cs -> fresh_ok h h1 tmp cs' ->
+  exists h2, list_move_assign h1 l tmp = Safe (h2, tmp) /\ upd_ok h l h2 tmp cs'.
+Proof.
+  intros h l cs h1 tmp cs' Hr [(-> & -> & ->)|(Hne & -> & ->)]; unfold list_move_assign.
+  - rewrite (hfree_rep h l cs Hr). cbn [rbind]. eexists. split; [reflexivity|]. apply (clear_ok h l cs Hr).
+  - rewrite (hfree_app_rep h _ l cs Hr). cbn [rbind]. rewrite (kill_app h _ l cs Hr).
+    eexists. split; [reflexivity|]. apply (replace_ok h l cs cs' Hr Hne).
+Qed.
+
+Lemma has_names : forall (A : Type) x (e : env A), has x e = existsb (Z.eqb x) (map fst e).
+Proof.
+  intros A x e. unfold has. induction e as [|[y a] r IH]; simpl; auto.
+  destruct (Z.eqb x y); simpl; auto.
+Qed.
+
+Lemma declared_names : forall st x, f_loc st = [] -> f_declared st x = existsb (Z.eqb x) (map fst (f_glob st)).
+Proof. intros st x Hl. unfold f_declared. rewrite Hl. simpl. apply has_names. Qed.
+
+Lemma lookup_undeclared : forall st x, f_loc st = [] ->
+  existsb (Z.eqb x) (map fst (f_glob st)) = false -> f_lookup st x = null_list.
+Proof.
+  intros st x Hl H. destruct (assoc_none_names _ _ _ H) as (Hn & _).
+  unfold f_lookup. rewrite Hl. simpl. now rewrite Hn.
+Qed.
+
+Lemma rep_null : forall h, rep h null_list [].
+Proof. intros. unfold rep. simpl. auto. Qed.
+
+Lemma post_ok_setup : forall st r, post_ok st r -> post_setup (map fst (f_glob st)) r.
+Proof. intros st [[st' o]|k] H; simpl in *; auto. Qed.
+
+(* first binding of a name that may or may not exist yet: x = <fresh value> *)
+Lemma bind_fresh_inv : forall st x h1 tmp cs',
+  Inv st -> fresh_ok (f_heap st) h1 tmp cs' ->
+  post_setup (add1 (map fst (f_glob st)) x)
+    (do r2 <- list_move_assign h1 (f_lookup st x) tmp; let '(h2, l) := r2 in
+     Safe ((if f_declared st x then f_store st h2 x l else f_declare false st h2 x l), @nil Z)).
+Proof.
+  intros st x h1 tmp cs' HI F. pose proof HI as (Hloc & _).
+  rewrite (declared_names st x Hloc). unfold add1, inb.
+  destruct (existsb (Z.eqb x) (map fst (f_glob st))) eqn:Ex.
+  - destruct (Inv_var st x HI Ex) as (l & cs & Hx & Hlk & Hr). rewrite Hlk.
+    destruct (move_assign_ok _ l cs h1 tmp cs' Hr F) as (h2 & E & UO). rewrite E. simpl.
+    split; [eapply store_inv; eauto | first [now apply store_names | (unfold f_store; rewrite Hloc; simpl; apply set_assoc_names)]].
+  - rewrite (lookup_undeclared st x Hloc Ex).
+    destruct (move_assign_ok _ null_list [] h1 tmp cs' (rep_null _) F) as (h2 & E & UO). rewrite E. simpl.
+    assert (h2 = h1).
+    { unfold list_move_assign in E. simpl in E. now injection E as <-. }
+    subst h2. split; [eapply decl_inv; eauto | first [apply declare_names | (unfold f_declare; simpl; now rewrite map_app)]].
+Qed.
+
+(* x = <copy of the well-formed list s> into a name that may or may not exist yet *)
+Lemma bind_copy_inv : forall st x s cs same,
+  Inv st -> rep (f_heap st) s cs ->
+  (same = true -> exists l, assoc x (f_glob st) = Some l /\ f_lookup st x = l) ->
+  post_setup (add1 (map fst (f_glob st)) x)
+    (if f_declared st x then
+       do r <- list_assign (f_heap st) (f_lookup st x) s same; let '(h1, l) := r in
+       Safe (f_store st h1 x l, @nil Z)
+     else
+       do r <- list_copy (f_heap st) s; let '(h1, l) := r in
+       Safe (f_declare false st h1 x l, [])).
+Proof.
+  intros st x s cs same HI Hs Hsame. pose proof HI as (Hloc & _).
+  rewrite (declared_names st x Hloc). unfold add1, inb.
+  destruct (existsb (Z.eqb x) (map fst (f_glob st))) eqn:Ex.
+  - destruct (Inv_var st x HI Ex) as (l & cd & Hx & Hlk & Hr). rewrite Hlk.
+    destruct same.
+    + unfold list_assign. simpl. rewrite store_same by auto. split; auto.
+    + destruct (assign_upd_ok_any _ l s cd cs Hr Hs) as (h' & l' & E & UO). rewrite E. simpl.
+      split; [eapply store_inv; eauto | first [now apply store_names | (unfold f_store; rewrite Hloc; simpl; apply set_assoc_names)]].
+  - destruct (copy_ok _ s cs Hs) as (h' & l' & E & F). rewrite E. simpl.
+    split; [eapply decl_inv; eauto | first [apply declare_names | (unfold f_declare; simpl; now rewrite map_app)]].
+Qed.
+
+Lemma exec1_inv_v : forall il st s d',
+  Inv st -> desugar s = None -> vs_ok1 (map fst (f_glob st)) s = Some d' -> post_setup d' (f_exec1 il st s).
+Proof.
+  intros il st s d' HI DS V. pose proof HI as (Hloc & _).
+  assert (USE : use_ok (map fst (f_glob st)) s = true -> d' = map fst (f_glob st) ->
+                post_setup d' (f_exec1 il st s)).
+  { intros U ->. apply post_ok_setup. pose proof (exec_inv il st s HI U) as PO.
+    unfold f_exec in PO. now rewrite DS in PO. }
+  destruct s; cbn [vs_ok1] in V; try discriminate; unfold inb in V.
+  - (* LDeclLit *)
+    destruct (existsb (Z.eqb x) (map fst (f_glob st))) eqn:Ex; try discriminate. injection V as <-.
+    destruct (make_ok (f_heap st) items) as (h' & l' & E & F). unfold f_exec1. rewrite E. simpl.
+    split; [eapply decl_inv; eauto | first [apply declare_names | (unfold f_declare; simpl; now rewrite map_app)]].
+  - (* LDeclComp *)
+    destruct (existsb (Z.eqb x) (map fst (f_glob st))) eqn:Ex; try discriminate. injection V as <-.
+    destruct (comp_ok (f_heap st) c) as (h' & l' & E & F). unfold f_exec1. rewrite E. simpl.
+    split; [eapply decl_inv; eauto | first [apply declare_names | (unfold f_declare; simpl; now rewrite map_app)]].
+  - (* LAssignVar *)
+    destruct (existsb (Z.eqb y) (map fst (f_glob st))) eqn:Ey; try discriminate. injection V as <-.
+    destruct (Inv_var st y HI Ey) as (ly & cy & Hy & Hlky & Hry).
+    unfold f_exec1. rewrite Hlky. eapply bind_copy_inv; eauto.
+    intros Es. apply Z.eqb_eq in Es. subst y. eauto.
+  - (* LAppend *) destruct (existsb (Z.eqb x) (map fst (f_glob st))) eqn:Ex; try discriminate. injection V as <-. apply USE; auto.
+  - (* LRemove *) destruct (existsb (Z.eqb x) (map fst (f_glob st))) eqn:Ex; try discriminate. injection V as <-. apply USE; auto.
+  - (* LGet *) destruct (existsb (Z.eqb x) (map fst (f_glob st))) eqn:Ex; try discriminate. injection V as <-. apply USE; auto.
+  - (* LSet *) destruct (existsb (Z.eqb x) (map fst (f_glob st))) eqn:Ex; try discriminate. injection V as <-. apply USE; auto.
+  - (* LLocalDeclLit *)
+    injection V as <-.
+    destruct (make_ok (f_heap st) items) as (h' & l' & E & F). unfold f_exec1. rewrite E. cbn [rbind].
+    eapply bind_fresh_inv; eauto.
+  - (* LLocalDeclComp *)
+    injection V as <-.
+    destruct (comp_ok (f_heap st) c) as (h' & l' & E & F). unfold f_exec1. rewrite E. cbn [rbind].
+    eapply bind_fresh_inv; eauto.
+  - (* LCallGet *) destruct (existsb (Z.eqb x) (map fst (f_glob st))) eqn:Ex; try discriminate. injection V as <-. apply USE; auto.
+  - (* LAppendRef *)
+    destruct (existsb (Z.eqb x) (map fst (f_glob st)) && existsb (Z.eqb y) (map fst (f_glob st))) eqn:Ex; try discriminate.
+    injection V as <-. apply USE; auto.
+  - (* LRemoveRef *)
+    destruct (existsb (Z.eqb x) (map fst (f_glob st)) && existsb (Z.eqb y) (map fst (f_glob st))) eqn:Ex; try discriminate.
+    injection V as <-. apply USE; auto.
+  - (* LAssignRet *)
+    destruct (existsb (Z.eqb y) (map fst (f_glob st))) eqn:Ey; try discriminate. injection V as <-.
+    destruct (Inv_var st y HI Ey) as (ly & cy & Hy & Hlky & Hry).
+    unfold f_exec1. rewrite Hlky. eapply bind_copy_inv; eauto. discriminate.
+  - (* LDrop *)
+    destruct (existsb (Z.eqb x) (map fst (f_glob st))) eqn:Ex; try discriminate. injection V as <-.
+    destruct (Inv_var st x HI Ex) as (l & cs & Hx & Hlk & Hr).
+    unfold f_exec1, list_destroy. rewrite Hlk, (hfree_rep _ l cs Hr). simpl. rewrite Hloc.
+    split; [now apply drop_inv|].
+    destruct (remove_split _ x _ l Hx) as (e1 & e2 & _ & R & N). now rewrite R, N.
+Qed.
+
+Lemma block1_inv_v : forall il ss st d',
+  Inv st -> Forall (fun s => desugar s = None) ss -> vs_block1 (map fst (f_glob st)) ss = Some d' ->
+  post_setup d' (f_block1 il st ss).
+Proof.
+  induction ss as [|s r IH]; intros st d' HI DS V; simpl in *.
+  - injection V as <-. auto.
+  - inversion DS as [|? ? D1 D2]; subst.
+    destruct (vs_ok1 (map fst (f_glob st)) s) as [d1|] eqn:V1; try discriminate.
+    pose proof (exec1_inv_v il st s d1 HI D1 V1) as H1.
+    destruct (f_exec1 il st s) as [[st1 o1]|k]; simpl in *; auto.
+    destruct H1 as [HI1 N1]. rewrite <- N1 in V.
+    pose proof (IH st1 d' HI1 D2 V) as H2.
+    destruct (f_block1 il st1 r) as [[st2 o2]|k]; simpl in *; auto.
+Qed.
+
+Lemma tuple_block_simple : forall xs rs, Forall (fun s => desugar s = None) (tuple_block xs rs).
+Proof.
+  intros xs rs. unfold tuple_block. apply Forall_app; split; [|apply Forall_app; split].
+  - generalize 0. induction rs as [|[y|items] r IH]; intros k; simpl; constructor; auto.
+  - generalize 0. induction xs as [|x r IH]; intros k; simpl; constructor; auto.
+  - generalize 0. induction (length rs) as [|n IH]; intros k; simpl; constructor; auto.
+Qed.
+
+Lemma desugar_simple : forall s b, desugar s = Some b -> Forall (fun s0 => desugar s0 = None) b.
+Proof.
+  intros s b H. destruct s; simpl in H; try discriminate; injection H as <-;
+    try (repeat constructor; fail). apply tuple_block_simple.
+Qed.
+
+Lemma exec_inv_v : forall il st s d',
+  Inv st -> vs_ok (map fst (f_glob st)) s = Some d' -> post_setup d' (f_exec il st s).
+Proof.
+  intros il st s d' HI V. unfold vs_ok in V. unfold f_exec.
+  destruct (desugar s) as [b|] eqn:D.
+  - eapply block1_inv_v; eauto. eapply desugar_simple; eauto.
+  - now apply exec1_inv_v.
+Qed.
+
+Lemma block_inv_v : forall il ss st d',
+  Inv st -> vs_block (map fst (f_glob st)) ss = Some d' -> post_setup d' (f_block il st ss).
+Proof.
+  induction ss as [|s r IH]; intros st d' HI V; simpl in *.
+  - injection V as <-. auto.
+  - destruct (vs_ok (map fst (f_glob st)) s) as [d1|] eqn:V1; try discriminate.
+    pose proof (exec_inv_v il st s d1 HI V1) as H1.
+    destruct (f_exec il st s) as [[st1 o1]|k]; simpl in *; auto.
+    destruct H1 as [HI1 N1]. rewrite <- N1 in V.
+    pose proof (IH st1 d' HI1 V) as H2.
+    destruct (f_block il st1 r) as [[st2 o2]|k]; simpl in *; auto.
+Qed.
+
+Lemma passes_seq_inv_v : forall bodies st,
+  Inv st -> vs_seq (map fst (f_glob st)) bodies = true ->
+  match run_passes_seq bodies st with Safe st' => Inv st' | Unsafe k => k = OutOfBounds end.
+Proof.
+  induction bodies as [|b r IH]; intros st HI V; simpl in *; auto.
+  destruct (vs_block (map fst (f_glob st)) b) as [d1|] eqn:V1; try discriminate.
+  pose proof (block_inv_v true b st d1 HI V1) as H. unfold run_pass.
+  destruct (f_block true st b) as [[st1 o]|k]; simpl in *; auto.
+  destruct H as [HI1 N1]. pose proof HI1 as (Hl1 & _).
+  assert (E : mkf (f_heap st1) (f_glob st1) [] = st1) by (destruct st1; simpl in *; now subst).
+  rewrite E. apply IH; auto. now rewrite N1.
+Qed.
+
+(* the theorem: with value semantics every history of every list program whose names are declared before they are
+   used is memory-safe up to Python's IndexError condition, and every reachable heap holds exactly the cells of
+   the named lists - no use after free, no double free, no leak *)
+Theorem value_safe_fw_seq : forall setup bodies,
+  value_ok setup bodies = true ->
+  match run_fw_seq setup bodies with
+  | Safe st => wf_heap st /\ tight st
+  | Unsafe k => k = OutOfBounds
+  end.
+Proof.
+  intros setup bodies G. unfold value_ok in G.
+  destruct (vs_block [] setup) as [d|] eqn:S; try discriminate.
+  pose proof (block_inv_v false setup f_init d Inv_init S) as H.
+  unfold run_fw_seq, run_setup.
+  destruct (f_block false f_init setup) as [[st0 o0]|k]; simpl in *; auto.
+  destruct H as [HI0 N0]. rewrite <- N0 in G.
+  pose proof (passes_seq_inv_v bodies st0 HI0 G) as H.
   destruct (run_passes_seq bodies st0); auto. now apply Inv_wf_tight.
 Qed.
